@@ -58,6 +58,19 @@ def add_lattice_universe(d, rng, u, next_id, new_universe, kind=None, lat_tr_p=0
                 n = [0., 0., 0.]
                 n[a] = 1.0
                 normals.append(n)
+        if kind.startswith('rect') and rng.random() < 0.2:
+            # the whole cell turned by a degree or two (a core map digitised from a drawing, a slightly rotated
+            # assembly): general planes whose normals are nearly, not exactly, coordinate axes
+            ang = math.radians(rng.choice([0.5, 1.0, 2.0, -1.5]))
+            ax = rng.randrange(3)
+            i1, i2 = [(1, 2), (2, 0), (0, 1)][ax]
+
+            def turn(n):
+                out = list(n)
+                out[i1] = math.cos(ang) * n[i1] - math.sin(ang) * n[i2]
+                out[i2] = math.sin(ang) * n[i1] + math.cos(ang) * n[i2]
+                return out
+            normals = [turn(n) for n in normals]
         refs = []
         for n in normals:
             c0 = sum(a * b for a, b in zip(n, centre))
@@ -76,6 +89,9 @@ def add_lattice_universe(d, rng, u, next_id, new_universe, kind=None, lat_tr_p=0
         # hexagonal prism: three pairs of planes at 60°, optional top/bottom
         rr = rng.choice([1.0, 1.5, 2.0, 2.5])
         s3 = math.sqrt(3.0)
+        # two axial zones of one pin lattice: a later 3-D hexagonal lattice of the deck is sometimes bounded by the very
+        # same six side planes (same cards, same order and senses) and closed by planes of its own
+        shared = getattr(d, '_hex_shared', None) if kind == 'hex3' and rng.random() < 0.5 else None
         # orientation, listing order and senses come from a generator of their own, which a later hexagonal lattice of
         # the same deck takes over half of the time: prisms that differ in size only
         import random as _random
@@ -93,28 +109,36 @@ def add_lattice_universe(d, rng, u, next_id, new_universe, kind=None, lat_tr_p=0
             return out
         dirs = [P([1.0, 0.0, 0.0]), P([0.5, s3 / 2, 0.0]), P([-0.5, s3 / 2, 0.0])]
         pairs = []
-        for n in dirs:
+        for n in ([] if shared else dirs):
             c0 = sum(a * b for a, b in zip(n, centre))
             hi = _plane_surf(d, n, c0 + rr, orng)
             lo = _plane_surf(d, n, c0 - rr, orng)
             pairs.append([('s', -hi), ('s', lo)])
         # MCNP order: side 1, its opposite, side 2 (adjacent choice), its opposite, the last two in any order
-        first = orng.randrange(3)
-        p1 = pairs[first]
-        others = [pairs[i] for i in range(3) if i != first]
-        orng.shuffle(others)
-        p2, p3 = others
-        for p in (p1, p2, p3):
+        if shared:
+            leaves, perm, centre, h0, z0 = list(shared[0]), shared[1], list(shared[2]), shared[3], shared[4]
+        else:
+            first = orng.randrange(3)
+            p1 = pairs[first]
+            others = [pairs[i] for i in range(3) if i != first]
+            orng.shuffle(others)
+            p2, p3 = others
+            for p in (p1, p2, p3):
+                if orng.random() < 0.5:
+                    p.reverse()
             if orng.random() < 0.5:
-                p.reverse()
-        if orng.random() < 0.5:
-            p3 = list(reversed(p3))
-        leaves = p1 + p2 + p3
+                p3 = list(reversed(p3))
+            leaves = p1 + p2 + p3
         dim = 2
         if kind == 'hex3':
             n = P([0.0, 0.0, 1.0])
             c0 = sum(a * b for a, b in zip(n, centre))
             h = rng.choice([1.0, 2.0])
+            if shared:
+                h = rng.choice([x for x in (0.75, 1.0, 2.0, 3.0) if x != h0])
+                c0 = z0 + rng.choice([1, -1]) * (h0 + h)          # the zone above or below the first one
+            else:
+                d._hex_shared = (list(leaves), perm, list(centre), h, c0)
             hi = _plane_surf(d, n, c0 + h, rng)
             lo = _plane_surf(d, n, c0 - h, rng)
             pz = [('s', -hi), ('s', lo)]
@@ -131,18 +155,11 @@ def add_lattice_universe(d, rng, u, next_id, new_universe, kind=None, lat_tr_p=0
         lo = rng.randint(-2, 1)
         hi = lo + rng.choice([0, 1, 1, 2])
         ranges.append((lo, hi))
-    if big_p and rng.random() < big_p and not getattr(d, '_big_lattice', False):
-        # now and then ONE lattice of some size (30–50 elements): long GEOMCOMP / VOLU lists, many generated cells
-        d._big_lattice = True
-        ranges = [(lo, lo + rng.choice([4, 5, 6])) if k < 2 else (lo, min(hi, lo + 1)) for k, (lo, hi) in enumerate(ranges)]
     if dim < 3 and rng.random() < 0.3:
         # trailing trivial ranges are tolerated by the converter only when every real dimension has a
         # non-degenerate range (known finding F21 otherwise)
         ranges = [(lo, hi if hi > lo else lo + 1) for lo, hi in ranges]
         ranges += [(0, 0)] * rng.randint(1, 3 - dim)
-    n_el = 1
-    for lo, hi in ranges:
-        n_el *= hi - lo + 1
     pool = [u, 0]
     for _ in range(rng.randint(1, 2)):
         v = new_universe()
@@ -150,6 +167,16 @@ def add_lattice_universe(d, rng, u, next_id, new_universe, kind=None, lat_tr_p=0
             pool.append(v)
     if len(pool) == 2:
         pool.append(u)
+        if big_p and rng.random() < big_p and not getattr(d, '_big_lattice', False):
+            # now and then ONE lattice of some size (25–50 elements): long GEOMCOMP / VOLU lists, many generated
+            # cells.  Only at the innermost level (every element is the lattice cell's own material or void): a
+            # big lattice of filled universes multiplies the conversion time beyond what one case may take
+            d._big_lattice = True
+            ranges = [(lo, hi) if k >= dim else (lo, lo + rng.choice([4, 5, 6])) if k < 2 else (lo, min(hi, lo + 1))
+                      for k, (lo, hi) in enumerate(ranges)]
+    n_el = 1
+    for lo, hi in ranges:
+        n_el *= hi - lo + 1
     us = [rng.choice(pool) for _ in range(n_el)]
     mat = rng.choice([1, 2, 3])
     cell = D.Cell(cell_id, e, mat=mat, rho=rng.choice(['-2.7', '-1.0', '0.05']), imp=1, u=u,
